@@ -572,11 +572,13 @@ def _t1_cache_can_evict(case):
     return int(case["cache_n"]) < len(keys)
 
 
-def _t1_only_cache_dependent(diff):
+def _t1_only_cache_dependent(diff, ma, mb):
+    """diff touches only counters that follow the cache contents; the hit-dependent ones may differ only in a call
+    that had a cache hit in one of the two runs (same number of hits on different graphs is enough)."""
     keys = set(diff)
     if not keys <= (T1_EVICT_DEP_KEYS | T1_HIT_DEP_KEYS):
         return False
-    return "cache_hits" in keys or not (keys & T1_HIT_DEP_KEYS)
+    return not (keys & T1_HIT_DEP_KEYS) or bool(ma.get("cache_hits") or mb.get("cache_hits"))
 
 
 def _t1_cfg(case, parallel: bool):
@@ -675,7 +677,7 @@ def check_t1(case, rec=None):
             diff = {k: (ma.get(k), mb.get(k)) for k in sorted(set(ma) | set(mb)) if ma.get(k) != mb.get(k)}
             # shared lock-wrapped stage cache smaller than the fan-out: which entry gets evicted follows the completion
             # order, so hit/miss/eviction counters (and max_delta, which a hit reports as 0) can differ - nothing else may
-            if _t1_only_cache_dependent(diff) and _t1_cache_can_evict(case):
+            if _t1_only_cache_dependent(diff, ma, mb) and _t1_cache_can_evict(case):
                 if rec is not None and rec.is_known(F_T1_EVICT):
                     evict_excluded = True
                     continue
@@ -981,7 +983,7 @@ SUBCHECKS = [
         exhaustive=True, replay=replay_par),
     Sub("par_sampled", sub_par_sampled, quick={"n": 300}, thorough={"n": 6000}, shards_quick=2, shards_thorough=8, replay=replay_par),
     Sub("par_free", sub_par_free, quick={"n": 150}, thorough={"n": 3000}, shards_quick=2, shards_thorough=8, replay=replay_par),
-    Sub("t1_fanout", sub_t1, quick={"n": 80}, thorough={"n": 1200}, shards_quick=4, shards_thorough=16, replay=replay_t1),
+    Sub("t1_fanout", sub_t1, quick={"n": 80}, thorough={"n": 800}, shards_quick=4, shards_thorough=16, replay=replay_t1),
     Sub("t2_fanout", sub_t2, quick={"n": 120}, thorough={"n": 1500}, shards_quick=4, shards_thorough=16, replay=replay_t2),
 ]
 
